@@ -344,7 +344,7 @@ def c02_steps(ctx):
                 mj = []
                 for i in range(16):
                     fam = ["grid", "withlang", "tokens", "mutations"][i % 4]
-                    n = {"grid": 461, "withlang": 25, "tokens": 581, "mutations": 501}[fam]
+                    n = {"grid": 461, "withlang": 25, "tokens": 2381, "mutations": 4001}[fam]
                     mj.append(["c02w", "--family", fam, "--shard", str(i), "--nshards", str(n), "--lean"])
                 layer_out.extend(miri_layer(ctx, mj, pid="C02"))
                 aj = []
@@ -417,7 +417,8 @@ def c02_replay(ctx, rp):
 # ---------------------------------------------------------------------- C15 instruction counts
 
 C15_FAMILIES = ["nest", "nest-noname", "nest-multi", "set-width", "coll-set", "attr-count", "group-count", "member-count",
-                "value-len", "name-len", "unterminated", "endcoll-flood", "member-flood", "addl-no-attr"]
+                "value-len", "name-len", "unterminated", "endcoll-flood", "member-flood", "addl-no-attr",
+                "name-invalid-utf8", "value-invalid-utf8", "member-count-desc", "member-count-shuffled", "attr-count-desc"]
 C15_RATIO_LIMIT = 2.6
 
 
